@@ -1275,7 +1275,7 @@ class Equilibrium(Reaction):
         for v in viol:
             for f in sympy.primefactors(v):
                 factors[f] = max(factors[f], sympy.Abs(v // f))
-        rcd = reduce(mul, (k ** v for k, v in factors.items()))
+        rcd = reduce(mul, (k ** v for k, v in factors.items()), 1)
         viol[0] *= -1
         return [rcd // v for v in viol]
 
